@@ -985,7 +985,11 @@ def component_order_types(F, rep, rid):
 
         def sign(a, b):
             return "Less" if a < b else "Greater" if a > b else "Equal"
+        def opaque_text(callee, method, recv, st):
+            """the text of a date is not the date: `to_string` is not folded through (text order is not the order of the components)"""
+            return ("unknown", "text of a value") if method in ("to_string", "to_owned", "into") and recv[0] == "tuple" else None
         ev0 = Evaluator(F, ints=True)
+        ev0.transparent_hook = opaque_text
         ok_pc = True
         for a in DATES:
             for b in DATES:
@@ -1023,6 +1027,7 @@ def component_order_types(F, rep, rid):
             for a in DATES[:6]:
                 for b in DATES[:6]:
                     ev = Evaluator(F, call_hook=hook, ints=True)
+                    ev.transparent_hook = opaque_text
                     try:
                         outs = ev.run_fn(fn[0], [enc(a), enc(b)])
                     except Exception as e:
@@ -1044,6 +1049,7 @@ def component_order_types(F, rep, rid):
                         for lo in DATES[:4]:
                             for hi in DATES[:4]:
                                 ev = Evaluator(F, call_hook=hook, ints=True)
+                                ev.transparent_hook = opaque_text
                                 try:
                                     outs = ev.run_fn(fn[0], [enc(x), enc(lo), enc(hi), mk_bool(lc), mk_bool(rc)])
                                 except Exception as e:
